@@ -121,3 +121,7 @@ pub(crate) fn remove_header_protection(
         EncryptedPayload::new(header_len, packet_number_len, payload),
     ))
 }
+
+#[cfg(all(aws_s2n_quic_verif, test))]
+#[path = "/verif/harness/core/header_crypto.rs"]
+mod verif;
